@@ -591,7 +591,9 @@ class CommunicationGroupContext(TwoPhaseWithBarrierContext):
     def extract_sequence_number(self, name: str, jobid: int):
         match = self.sequence_number_pattern.search(name)
         if match:
-            return int(str(jobid) + match.group(1))
+            # the (job, number) pair itself is the key: concatenating the digits is not injective
+            # (job 441 / seq 15 vs. job 4411 / seq 5) and yields a falsy 0 for job 0 / seq 0
+            return (jobid, match.group(1))
         else:
             return None
 
@@ -639,7 +641,7 @@ def communication_event_collection(event: TraceEvent, context: AbstractContext) 
         return [event]
 
     sequence = context.extract_sequence_number(event["name"], event["args"]["jobhash"])
-    if sequence:
+    if sequence is not None:
         context.add_to_sequence(event, sequence)
 
     return [event]
@@ -652,7 +654,7 @@ def communication_event_apply(event: TraceEvent, context: AbstractContext) -> li
         return [event]
 
     sequence = context.extract_sequence_number(event["name"], event["args"]["jobhash"])
-    if sequence:
+    if sequence is not None:
         return context.apply(event, sequence)
     else:
         return [event]
